@@ -66,3 +66,43 @@ def run(chk, unit="asmjit/core/codeholder.cpp", rule="R-PADDING-TO-NONEMPTY"):
                               " ".join(fn.text(i).split())[:50], key="paddingnonempty|%s" % l.get("name"))
     chk.floor(rule + ":assignments", n, 1)
     return n
+
+
+def run_every_offset(chk, unit="asmjit/core/codeholder.cpp", rule="R-EVERY-SECTION-GETS-OFFSET"):
+    """flatten() assigns an offset to every section it iterates over - empty ones included"""
+    chk.rule(rule, "CodeHolder::flatten(): in the loop that lays the sections out, every path through one iteration (from the loop variable's "
+                   "definition to the iterator increment) calls Section::set_offset(): no section - an empty one included - leaves flatten() "
+                   "without an offset (copy_flattened_data() refuses a holder that has one)")
+    f = chk.facts(unit, funcs=r"asmjit::CodeHolder::flatten$")
+    fns = [g for g in cfg.load_functions(f) if g.file.endswith(unit.split("/")[-1])]
+    chk.need(fns, "CodeHolder::flatten not found")
+    fn = fns[0]
+    sets = [i for i, x in fn.calls(lambda x: x.get("cn") == "set_offset")]
+    chk.need(sets, "flatten(): no call of set_offset()")
+    pos = fn.block_of()
+
+    def is_iter_decl(x):
+        return x["k"] == "decl" and any(v.get("init") is not None and "__begin" in fn.text(v["init"]) for v in x["vars"])
+
+    def elem(eid, x):
+        if eid in sets:
+            return ((("set",),), ())
+        if is_iter_decl(x):
+            return ((), (("set",),))
+        return None
+    m = Must(fn, elem, None)
+    n = 0
+    for s_ in sets:
+        bs = pos[s_][0]
+        fwd = set(fn.reachable_from(bs))
+        for i, x in sorted(fn.ex.items()):
+            if x["k"] == "unop" and x["op"] == "++" and "__begin" in fn.text(x["sub"]) and i in pos:
+                bi = pos[i][0]
+                if bi in fwd and bs in set(fn.reachable_from(bi)):
+                    n += 1
+                    chk.ob(rule, "flatten|iteration@%d" % (fn.line_of(i) - fn.line), ("set",) in (m.before(i) or frozenset()), loc=fn.loc(s_),
+                           detail="an iteration of the layout loop can reach the next section without having called set_offset(): that section "
+                                  "keeps `kNoSectionOffset`, has_offset() stays false and the flattened image can no longer be copied",
+                           key="everyoffset|flatten")
+    chk.floor(rule + ":loops", n, 1)
+    return n
